@@ -302,7 +302,7 @@ def axiom_audit(mod):
     res = {}
     # output forms: "'X' depends on axioms: [a, b]" possibly wrapped over lines / "'X' does not depend on any axioms"
     text = out.replace("\n", " ")
-    for m in re.finditer(r"'([^']+)' (does not depend on any axioms|depends on axioms: \[([^\]]*)\])", text):
+    for m in re.finditer(r"'(\S+?)' (does not depend on any axioms|depends on axioms: \[([^\]]*)\])", text):
         name = m.group(1)
         axs = [a.strip() for a in (m.group(3) or "").split(",") if a.strip()]
         res[name] = axs
